@@ -7,6 +7,7 @@ NoGates == {}
 I0 == NumI(0)  I1 == NumI(1)  I2 == NumI(2)  I3 == NumI(3)
 F15 == NumF("1.5", "1.5", 0, FALSE)
 F20 == NumF("2.0", "2", 2, TRUE)
+F30 == NumF("3.0", "3", 3, TRUE)
 
 \* ---------------------------------------------------------------- C04: macros
 H_M == { Hdr(<<DLet("a", I1), DLet("b", I2)>>, <<DReg("q", I3)>>, <<>>, <<>>),
@@ -86,6 +87,10 @@ M_XP == << MD("m1", <<"x">>, {"seq", "par"}, { G("X", <<Par("x")>>) }, { OLoop(L
            MD("m2", <<"x">>, {"seq"}, { G("m1", <<Par("x")>>) }, {}, 1) >>
 T_XP == { G("m1", <<QI("q", 0)>>), G("m2", <<QI("q", 1)>>), G("X", <<QI("q", 2)>>) }
 O_XP == { OSeq, OPar }
+\* a macro whose register parameter is NAMED like the register q, with the same statement text `X q[0]` inside and outside
+M_XC == << MD("kick", <<"q">>, {"seq"}, { G("X", <<QbP("q", I0)>>), G("X", <<QbP("q", Let("a"))>>) }, {}, 2) >>
+T_XC == { G("X", <<QI("q", 0)>>), G("X", <<Qb("q", Let("a"))>>), G("kick", <<RegA("r")>>), G("kick", <<RegA("q")>>) }
+O_XC == { OSeq, OSub(I1) }
 O_X == { OSeq, OPar, OLoop(Let("n"), FALSE), OSub(I1), OSub(Let("n")) }
 
 \* ---------------------------------------------------------------- C07: colliding names (lexical scoping)
@@ -148,8 +153,10 @@ O_GO == { OSub(I1), OLoop(Let("j"), FALSE) }
 \* has a single fundamental register, JaqalParse!TwoRegisters)
 H_G1 == { Hdr(<<>>, <<DReg("q", I1)>>, <<>>, ExactGates) }
 T_G1 == { G("X", <<QI("q", 0)>>), G("H", <<QI("q", 0)>>), G("S", <<QI("q", 0)>>), G("R", <<QI("q", 0), I3>>), G("I_X", <<QI("q", 0)>>) }
-H_G4 == { Hdr(<<>>, <<DReg("q", NumI(4)), DSlice("r", "q", I1, NumI(4), I2)>>, <<>>, ExactGates) }      \* r = q[1], q[3]
-T_G4 == { G("X", <<QI("q", 3)>>), G("H", <<QI("q", 3)>>), G("H", <<QI("q", 0)>>), G("CX", <<QI("q", 3), QI("q", 0)>>),
+\* r = q[1], q[3];  u = r[1:2] = q[3]: an alias of a STRIDED alias with a non-zero start (the links compose as
+\* start_r + start_u * step_r)
+H_G4 == { Hdr(<<>>, <<DReg("q", NumI(4)), DSlice("r", "q", I1, NumI(4), I2), DSlice("u", "r", I1, I2, None)>>, <<>>, ExactGates) }
+T_G4 == { G("X", <<QI("u", 0)>>), G("CX", <<QI("u", 0), QI("q", 0)>>), G("X", <<QI("q", 3)>>), G("H", <<QI("q", 3)>>), G("H", <<QI("q", 0)>>), G("CX", <<QI("q", 3), QI("q", 0)>>),
           G("CX", <<QI("q", 2), QI("q", 3)>>), G("SW", <<QI("q", 1), QI("q", 3)>>), G("CCX", <<QI("q", 0), QI("q", 3), QI("q", 2)>>),
           G("CR", <<QI("r", 1), QI("r", 0), I3>>), G("S", <<QI("q", 2)>>) }
 
@@ -187,7 +194,9 @@ H_R == { Hdr(<<DLet("a", I1), DLet("n", NumI(4)), DLet("y", FE6), DLet("w", FNEG
 \*  not disturb the outer binding)
 M_R == << MD("m", <<"x", "a">>, {"seq", "par"}, { G("g", <<Par("x"), Par("a")>>), G("h", <<Qb("q", Par("a"))>>) }, { OSub(Let("n")) }, 1) >>
 T_R == { G("g", <<QI("q", 0), F15>>), G("g", <<QAl("s"), Let("y")>>), G("h", <<QI("r", 1)>>), G("g", <<QI("v", 0), FE6>>),
-         G("m", <<QI("q", 2), I2>>), G("k", <<FNEG, INEG, FBIG>>) }
+         G("m", <<QI("q", 2), I2>>), G("k", <<FNEG, INEG, FBIG>>),
+         \* an integral float next to the equal integer (the loop count 3 of O_R): 3.0 and 3 must stay different spellings
+         G("g", <<QI("q", 1), F30>>) }
 O_R == { OSeq, OPar, OLoop(Let("a"), FALSE), OLoop(I3, TRUE), OSub(I1), OSub(NumI(5)), OSub(Let("n")) }
 
 \* ---------------------------------------------------------------- C16: executable texts with loop counts at the edge
